@@ -15,6 +15,9 @@ import Mhd.Proofs.AuthTerm
 import Mhd.Proofs.AuthB64Canon
 import Mhd.Proofs.AuthExt
 import Mhd.Proofs.AuthApi
+import Mhd.Proofs.AuthCorrupt
+import Mhd.Proofs.AuthRef
+import Mhd.Proofs.AuthLay
 
 namespace Mhd.C14
 open Mhd.Auth Mhd.Gen.Auth
@@ -294,6 +297,311 @@ example : (usernameInfo [] none (canon (view exHash))) = .ok (⟨unUserhash, non
 example : (usernameInfo [] none (canon (view exExt))) = .ok (⟨unExtended, some [74, 32, 0xc3, 0xa4], none, none⟩, algoMd5) := by decide
 example : eraseCnl (requestInfo [] none (canon (view exStd))) =
     .ok ⟨algoMd5, ⟨unStandard, some [97, 34, 98], none, none⟩, none, none, qopNone, 0, 10⟩ := by decide
+
+/-! ## Single-character corruptions of a rendering
+
+  `render lead (pre ++ e :: post) = valPrefix lead pre e ++ (value of e as rendered ++ valSuffix e post)`
+  (`render_split`); the theorems replace one byte of the value region of an arbitrary parameter `e` of an
+  arbitrary well-formed list, at every position and with every byte they name.
+
+  Proved: (quoted form) every position between the DQUOTEs × every replacement byte: NUL ⇒ rejected; the body
+  still is a quoted-string body ⇒ accepted and only that parameter changes.  (token form) every position ×
+  every byte: NUL, ';' ⇒ rejected; any byte that may stand in an unquoted value ⇒ only that parameter changes.
+  Corruptions that only change letter case of a name or replace SP by HT (or vice versa) are renderings of the
+  same items: `digest_rendering_invariant`.
+
+  NOT proved, and false for the code as it is (`corruption_structural_witness`, hence the name `corruption_local_*`
+  for the parts and no theorem `corruption_local` for all positions/bytes): replacement bytes that re-bracket the
+  string — a DQUOTE or a backslash that breaks a quoted-pair inside a quoted value, SP / HT / ',' inside an
+  unquoted value, the DQUOTEs themselves, and positions outside values ("=", commas, names).  For those only the
+  parameters rendered *before* the corrupted one are protected by the left-to-right scan (checked dynamically:
+  `corruption_rule` in tools/props/C14.py).
+-/
+
+theorem withValue_wf_quoted (e : Elem) (he : e.wf = true) (v' : Bytes) (esc' : List Bool) (hv : ∀ c ∈ v', c ≠ 0) :
+    (e.withValue v' (.quoted esc')).wf = true := by
+  obtain ⟨h1, h2, h3, h4, h5⟩ := e.wf_ws he
+  simp only [Elem.wf, Elem.withValue, Bool.and_eq_true, decide_eq_true_eq, paramNames_length, List.all_eq_true]
+  exact ⟨⟨⟨⟨⟨h1, h2⟩, h3⟩, h4⟩, h5⟩, fun c hc => by simpa using hv c hc⟩
+
+theorem withValue_wf_token (e : Elem) (he : e.wf = true) (v' : Bytes) (hall : v'.all tokByte = true)
+    (hhead : v'.head? ≠ some 34) (hne : v' ≠ []) : (e.withValue v' .token).wf = true := by
+  obtain ⟨h1, h2, h3, h4, h5⟩ := e.wf_ws he
+  simp only [Elem.wf, Elem.withValue, Bool.and_eq_true, decide_eq_true_eq, paramNames_length]
+  refine ⟨⟨⟨⟨⟨h1, h2⟩, h3⟩, h4⟩, h5⟩, ⟨hall, by simpa using hhead⟩, by simpa using hne⟩
+
+/-- Corruption inside a quoted value, any position of the body (between the DQUOTEs), any replacement
+    byte, as long as the body still is a quoted-string body (`QBody`: no NUL, no bare DQUOTE, no backslash
+    left without its character): accepted, the string is a rendering of the same list with that one value
+    replaced — every other parameter, and algorithm / qop / userhash unless that parameter is the one hit,
+    keep their meaning. -/
+theorem corruption_local_quoted (lead : Bytes) (pre : List Elem) (e : Elem) (post : List Elem) (t : UInt8) (ht : t ≠ 59)
+    (hwf : WF lead (pre ++ e :: post) = true) (esc : List Bool) (hf : e.r.form = .quoted esc)
+    (j : Nat) (b : UInt8) (hj : j < (escRender esc e.item.value).length)
+    (hq : QBody ((escRender esc e.item.value).set j b) = true) :
+    ∃ d v' esc', parseDigest ((render lead (pre ++ e :: post)).set ((valPrefix lead pre e).length + (1 + j)) b) (some t) = .ok d ∧
+      (escRender esc e.item.value).set j b = escRender esc' v' ∧
+      (∀ k, (d.slots k).map paramUnq = view (pre ++ e.withValue v' (.quoted esc') :: post) k) ∧
+      (∀ k, k ≠ e.item.slot → (d.slots k).map paramUnq = view (pre ++ e :: post) k) ∧
+      (e.item.slot ≠ kAlgorithm → d.algo3 = algoSem (view (pre ++ e :: post) kAlgorithm)) ∧
+      (e.item.slot ≠ kQop → d.qop = qopSem (view (pre ++ e :: post) kQop)) ∧
+      (e.item.slot ≠ kUserhash → d.userhash = userhashSem (view (pre ++ e :: post) kUserhash)) := by
+  obtain ⟨esc', v', hdec, hv'⟩ := qbody_decomp _ _ (Nat.le_refl _) hq
+  have he : e.wf = true := by
+    simp only [WF, Bool.and_eq_true, List.all_append, List.all_cons] at hwf; exact hwf.2.2.1
+  have hwf' := withValue_wf_quoted e he v' esc' hv'
+  obtain ⟨d, hp, hview, ha, hqq, hu⟩ := parse_replaced lead pre e post t ht hwf v' (.quoted esc') hwf'
+  refine ⟨d, v', esc', ?_, hdec, hview, ?_, ?_, ?_, ?_⟩
+  · rw [render_split, hf, set_in_value _ _ _ _ _ (by simp [renderValue]; omega)]
+    have : (renderValue e.item.value (.quoted esc)).set (1 + j) b = renderValue v' (.quoted esc') := by
+      simp only [renderValue, Nat.add_comm 1 j, List.set_cons_succ]
+      rw [List.set_append_left _ _ hj, hdec]
+    rw [this]; exact hp
+  · intro k hk; rw [hview k, view_withValue _ _ _ _ _ _ hk]
+  · intro hk; rw [ha, view_withValue _ _ _ _ _ _ (Ne.symm hk)]
+  · intro hk; rw [hqq, view_withValue _ _ _ _ _ _ (Ne.symm hk)]
+  · intro hk; rw [hu, view_withValue _ _ _ _ _ _ (Ne.symm hk)]
+
+/-- … and when the replacement byte is NUL the string is rejected, at every position of the body. -/
+theorem corruption_rejected_quoted_nul (lead : Bytes) (pre : List Elem) (e : Elem) (post : List Elem) (t : UInt8) (ht : t ≠ 59)
+    (hwf : WF lead (pre ++ e :: post) = true) (esc : List Bool) (hf : e.r.form = .quoted esc)
+    (j : Nat) (hj : j < (escRender esc e.item.value).length) :
+    parseDigest ((render lead (pre ++ e :: post)).set ((valPrefix lead pre e).length + (1 + j)) 0) (some t) = .reject := by
+  have he : e.wf = true := by
+    simp only [WF, Bool.and_eq_true, List.all_append, List.all_cons] at hwf; exact hwf.2.2.1
+  have hv := e.wf_quoted he esc hf
+  rw [render_split, hf, set_in_value _ _ _ _ _ (by simp [renderValue]; omega)]
+  have hset : (renderValue e.item.value (.quoted esc)).set (1 + j) 0 =
+      34 :: ((escRender esc e.item.value).set j 0 ++ [34]) := by
+    simp only [renderValue, Nat.add_comm 1 j, List.set_cons_succ]
+    rw [List.set_append_left _ _ hj]
+  rw [hset]
+  apply parse_value_reject lead pre e post t ht hwf
+  · exact ⟨34, _, rfl, by decide⟩
+  · have := scanQ_nul t _ (escRender esc e.item.value) j ([34] ++ valSuffix e post) (Nat.le_refl _)
+      (QBody_escRender esc _ hv) hj
+    simp only [valueAt, List.cons_append, if_true, List.append_assoc] at this ⊢
+    rw [this]; rfl
+
+/-- Corruption inside an unquoted value: a replacement byte that may stand in such a value (anything but
+    NUL SP HT , ; — and not a DQUOTE at the first position) changes only that parameter. -/
+theorem corruption_local_token (lead : Bytes) (pre : List Elem) (e : Elem) (post : List Elem) (t : UInt8) (ht : t ≠ 59)
+    (hwf : WF lead (pre ++ e :: post) = true) (hf : e.r.form = .token)
+    (j : Nat) (b : UInt8) (hj : j < e.item.value.length) (hb : tokByte b = true) (h0 : j = 0 → b ≠ 34) :
+    ∃ d, parseDigest ((render lead (pre ++ e :: post)).set ((valPrefix lead pre e).length + j) b) (some t) = .ok d ∧
+      (∀ k, (d.slots k).map paramUnq = view (pre ++ e.withValue (e.item.value.set j b) .token :: post) k) ∧
+      (∀ k, k ≠ e.item.slot → (d.slots k).map paramUnq = view (pre ++ e :: post) k) ∧
+      (e.item.slot ≠ kAlgorithm → d.algo3 = algoSem (view (pre ++ e :: post) kAlgorithm)) ∧
+      (e.item.slot ≠ kQop → d.qop = qopSem (view (pre ++ e :: post) kQop)) ∧
+      (e.item.slot ≠ kUserhash → d.userhash = userhashSem (view (pre ++ e :: post) kUserhash)) := by
+  have he : e.wf = true := by
+    simp only [WF, Bool.and_eq_true, List.all_append, List.all_cons] at hwf; exact hwf.2.2.1
+  obtain ⟨c, r, hv, hc, hall⟩ := e.wf_token he hf
+  have hall' : (e.item.value.set j b).all tokByte = true := by
+    rw [List.all_eq_true]
+    intro x hx
+    rcases List.mem_or_eq_of_mem_set hx with h | h
+    · rw [hv] at h; exact List.all_eq_true.mp hall x h
+    · rw [h]; exact hb
+  have hhead : (e.item.value.set j b).head? ≠ some 34 := by
+    rw [hv]
+    cases j with
+    | zero => simpa using h0 rfl
+    | succ j => simpa using hc
+  have hne : e.item.value.set j b ≠ [] := by
+    intro h
+    have hl : (e.item.value.set j b).length = 0 := by rw [h]; rfl
+    rw [List.length_set] at hl; omega
+  have hwf' := withValue_wf_token e he _ hall' hhead hne
+  obtain ⟨d, hp, hview, ha, hqq, hu⟩ := parse_replaced lead pre e post t ht hwf _ .token hwf'
+  refine ⟨d, ?_, hview, ?_, ?_, ?_, ?_⟩
+  · rw [render_split, hf, set_in_value _ _ _ _ _ (by simpa [renderValue] using hj)]
+    exact hp
+  · intro k hk; rw [hview k, view_withValue _ _ _ _ _ _ hk]
+  · intro hk; rw [ha, view_withValue _ _ _ _ _ _ (Ne.symm hk)]
+  · intro hk; rw [hqq, view_withValue _ _ _ _ _ _ (Ne.symm hk)]
+  · intro hk; rw [hu, view_withValue _ _ _ _ _ _ (Ne.symm hk)]
+
+/-- … NUL and ';' are rejected, at every position of the value. -/
+theorem corruption_rejected_token (lead : Bytes) (pre : List Elem) (e : Elem) (post : List Elem) (t : UInt8) (ht : t ≠ 59)
+    (hwf : WF lead (pre ++ e :: post) = true) (hf : e.r.form = .token)
+    (j : Nat) (b : UInt8) (hj : j < e.item.value.length) (hb : b = 0 ∨ b = 59) :
+    parseDigest ((render lead (pre ++ e :: post)).set ((valPrefix lead pre e).length + j) b) (some t) = .reject := by
+  have he : e.wf = true := by
+    simp only [WF, Bool.and_eq_true, List.all_append, List.all_cons] at hwf; exact hwf.2.2.1
+  obtain ⟨c, r, hv, hc, hall⟩ := e.wf_token he hf
+  rw [render_split, hf, set_in_value _ _ _ _ _ (by simpa [renderValue] using hj)]
+  simp only [renderValue]
+  have hhead : ∃ c' r', e.item.value.set j b ++ valSuffix e post = c' :: r' ∧ isWs c' = false ∧ c' ≠ 34 := by
+    rw [hv]
+    cases j with
+    | zero =>
+      refine ⟨b, r ++ valSuffix e post, by simp, ?_, ?_⟩ <;> rcases hb with h | h <;> subst h <;> decide
+    | succ j =>
+      simp only [List.all_cons, Bool.and_eq_true, tokByte, ne_eq, decide_eq_true_eq] at hall
+      exact ⟨c, r.set j b ++ valSuffix e post, by simp, by simp [isWs, hall.1.1.1.1.2, hall.1.1.1.2], hc⟩
+  obtain ⟨c', r', hcr, hws, h34⟩ := hhead
+  apply parse_value_reject lead pre e post t ht hwf
+  · exact ⟨c', r', hcr, hws⟩
+  · have := scanTok_bad t b hb e.item.value j (valSuffix e post) (by rw [hv]; exact hall) hj
+    rw [hcr] at this ⊢
+    simp only [valueAt, h34, if_false, this]
+    rfl
+
+/-- Non-vacuity and the limit of the two theorems: `nonce="good",realm="abX ,nonce=evil"`, byte 22 is the `X`. -/
+def exCorPre : List Elem := [⟨⟨kNonce, [103, 111, 111, 100]⟩, ⟨[], [], [], .quoted [], [], []⟩⟩]
+def exCorE : Elem := ⟨⟨kRealm, [97, 98, 88, 32, 44, 110, 111, 110, 99, 101, 61, 101, 118, 105, 108]⟩, ⟨[], [], [], .quoted [], [], []⟩⟩
+def exCorTok : Elem := ⟨⟨kRealm, [97, 98, 88, 110, 111, 110, 99, 101, 61, 101, 118, 105, 108]⟩, ⟨[], [], [], .token, [], []⟩⟩
+
+example : WF [] (exCorPre ++ exCorE :: []) = true ∧ exCorE.r.form = .quoted [] ∧ (valPrefix [] exCorPre exCorE).length + (1 + 2) = 22 ∧
+    2 < (escRender [] exCorE.item.value).length ∧ QBody ((escRender [] exCorE.item.value).set 2 89) = true := by decide
+example : WF [] (exCorPre ++ exCorTok :: []) = true ∧ exCorTok.r.form = .token ∧ 2 < exCorTok.item.value.length ∧ tokByte 89 = true := by decide
+
+/-- What the two `corruption_local_*` theorems leave out does happen on the code as it is (the scanner accepts a
+    DQUOTE and '=' inside an unquoted value): one replaced byte *inside the value of realm* re-brackets the
+    string and the unrelated parameter `nonce` changes from `good` to `evil"` resp. `evil`.
+    (1) `nonce="good",realm="abX ,nonce=evil"` with X := DQUOTE, (2) `nonce="good",realm=abXnonce=evil` with X := ','. -/
+theorem corruption_structural_witness :
+    (parseDigest (render [] (exCorPre ++ [exCorE])) (some 0)).map (fun d => (d.slots kNonce).map paramUnq) = .ok (some [103, 111, 111, 100]) ∧
+    (parseDigest ((render [] (exCorPre ++ [exCorE])).set 22 34) (some 0)).map (fun d => (d.slots kNonce).map paramUnq) =
+      .ok (some [101, 118, 105, 108, 34]) ∧
+    (parseDigest (render [] (exCorPre ++ [exCorTok])) (some 0)).map (fun d => (d.slots kNonce).map paramUnq) = .ok (some [103, 111, 111, 100]) ∧
+    (parseDigest ((render [] (exCorPre ++ [exCorTok])).set 21 44) (some 0)).map (fun d => (d.slots kNonce).map paramUnq) =
+      .ok (some [101, 118, 105, 108]) := by decide
+
+
+/-! ## Agreement with a grammar-level reference reader, for all byte strings -/
+
+/-- For EVERY byte string `s` (not only renderings of parameter sets): when the recursive-descent reference
+    reader of the RFC 7235 / 7616 grammar (`Mhd.Auth.Ref.parse`, written from the ABNF: `token BWS "=" BWS
+    ( token / quoted-string )`, comma-separated list with OWS and empty elements, names caseless, extension
+    parameters skipped, last occurrence of a repeated parameter counts) accepts `s`, so does
+    `parse_dauth_params`, and every parameter, the algorithm and qop constants and the userhash flag are
+    those of the reference reader. -/
+theorem parse_agrees_reference (s : Bytes) (t : UInt8) (ht : t ≠ 59) (lead : Bytes) (gs : List GElem)
+    (h : Ref.parse s = some (lead, gs)) :
+    ∃ d, parseDigest s (some t) = .ok d ∧
+      (∀ k, (d.slots k).map paramUnq = Ref.value s k) ∧
+      d.algo3 = algoSem (Ref.value s kAlgorithm) ∧ d.qop = qopSem (Ref.value s kQop) ∧
+      d.userhash = userhashSem (Ref.value s kUserhash) := by
+  obtain ⟨hr, hwf⟩ := Ref.parse_tree s lead gs h
+  have hv : ∀ k, Ref.value s k = viewG gs k := fun k => by simp [Ref.value, h]
+  simp only [hv]
+  rw [← hr]
+  exact parseDigest_renderG lead gs t ht hwf
+
+/-- the reference reader's result is a parse tree of its input: a well-formed element list (every choice the
+    grammar leaves to the sender recorded) whose rendering is the input -/
+theorem reference_returns_parse_tree (s lead : Bytes) (gs : List GElem) (h : Ref.parse s = some (lead, gs)) :
+    renderG lead gs = s ∧ WFG lead gs = true :=
+  Ref.parse_tree s lead gs h
+
+/-- Non-vacuity: ` ,  Realm = "a\"b" ,, x-ext="q,;=\"" , NC=0000000a ,` (the rendering of `exG` with a leading SP)
+    is accepted by the reference reader with realm = `a"b`, nc = `0000000a`; a repeated parameter: last wins. -/
+example : (Ref.parse (renderG [32] exG)).isSome = true ∧ Ref.value (renderG [32] exG) kRealm = some [97, 34, 98] ∧
+    Ref.value (renderG [32] exG) kNc = some [48, 48, 48, 48, 48, 48, 48, 97] ∧ Ref.value (renderG [32] exG) kNonce = none := by
+  decide
+example : Ref.value [110, 99, 61, 49, 44, 78, 67, 61, 34, 92, 50, 34] kNc = some [50] := by decide   -- `nc=1,NC="\2"`
+
+/-- The converse does not hold: `parse_dauth_params` accepts strings outside the grammar (for these the reference
+    reader, like every RFC-conforming recipient, has no answer).  Witnesses, one per kind of leniency, each
+    rejected by the reference reader and accepted by the model of the C scanner (and by the real code: corpus/auth):
+    (1) `nc=` empty unquoted value, (2) `realm=a"b` DQUOTE inside an unquoted value, (3) `realm=a=b` '=' inside an
+    unquoted value, (4) `foo` unknown element without "=", (5) `fo o="x` + `"y` quoted parts anywhere in an unknown
+    element, (6) `realm="a` + 0x01 + `"` control character inside a quoted-string.
+    This is the soundness half `digest_accepts_only_grammar` in `_partial` form: what is missing is the exact
+    characterisation of the accepted language (a lenient grammar: token values = any bytes but NUL SP HT , ; possibly
+    empty; unknown elements = any text without NUL ; and top-level comma, with balanced DQUOTE parts) and its proof. -/
+theorem digest_accepts_beyond_grammar_witness :
+    (Ref.parse [110, 99, 61] = none ∧ (parseDigest [110, 99, 61] (some 0)).map (fun d => (d.slots kNc).map paramUnq) = .ok (some [])) ∧
+    (Ref.parse [114, 101, 97, 108, 109, 61, 97, 34, 98] = none ∧
+      (parseDigest [114, 101, 97, 108, 109, 61, 97, 34, 98] (some 0)).map (fun d => (d.slots kRealm).map paramUnq) = .ok (some [97, 34, 98])) ∧
+    (Ref.parse [114, 101, 97, 108, 109, 61, 97, 61, 98] = none ∧
+      (parseDigest [114, 101, 97, 108, 109, 61, 97, 61, 98] (some 0)).map (fun d => (d.slots kRealm).map paramUnq) = .ok (some [97, 61, 98])) ∧
+    (Ref.parse [102, 111, 111] = none ∧ (parseDigest [102, 111, 111] (some 0)).map (fun _ => ()) = .ok ()) ∧
+    (Ref.parse [102, 111, 32, 111, 34, 44, 34, 121] = none ∧
+      (parseDigest [102, 111, 32, 111, 34, 44, 34, 121] (some 0)).map (fun _ => ()) = .ok ()) ∧
+    (Ref.parse [114, 101, 97, 108, 109, 61, 34, 97, 1, 34] = none ∧
+      (parseDigest [114, 101, 97, 108, 109, 61, 34, 97, 1, 34] (some 0)).map (fun d => (d.slots kRealm).map paramUnq) = .ok (some [97, 1])) := by
+  decide
+
+
+/-! ## The information API: one allocated block, user-name type -/
+
+/-- `MHD_digest_auth_get_request_info3` for EVERY parameter structure `d` (whatever header produced it): the
+    regions the returned pointers refer to (`username` / `userhash_hex` / `userhash_bin` / `opaque` / `realm`, strings
+    with their terminating NUL) follow one another without overlap inside the `unif_buf_size` bytes computed by
+    `get_rq_unames_size` + `opaque.len + 1` + `realm.len + 1`; also the bytes `MHD_hex_to_bin` may write for an
+    invalid userhash (`touched`, seed kind C14_2: `(len + 1) / 2`, not `len / 2`) and `unif_buf_used` stay inside. -/
+theorem info_block_layout (s : Bytes) (term : Option UInt8) (d : DAuth) (L : Lay) (h : requestInfoLay s term d = .ok L) :
+    chain 0 L.regions L.size ∧ L.touched ≤ L.size ∧ L.used ≤ L.size :=
+  requestInfoLay_fits s term d L h
+
+theorem username_block_layout (s : Bytes) (term : Option UInt8) (d : DAuth) (L : Lay) (h : usernameLay s term d = .ok L) :
+    chain 0 L.regions L.size ∧ L.touched ≤ L.size ∧ L.used ≤ L.size :=
+  usernameLay_fits s term d L h
+
+/-- userhash `abCD` (+ binary ab cd), opaque absent, realm absent: 5 + 2 bytes, all used;
+    odd-length invalid userhash `abc`: 4 + 2 bytes allocated, 2 bytes touched behind the hex string -/
+example : requestInfoLay [] none (canon (view exHash)) =
+    .ok ⟨7, none, some (0, 4), some (5, 2), none, none, 7, 7⟩ := by decide
+example : requestInfoLay [] none (canon (fun k => if k = kUsername then some [97, 98, 99] else if k = kUserhash then some [116, 114, 117, 101] else none)) =
+    .ok ⟨6, none, some (0, 3), none, none, none, 6, 4⟩ := by decide
+example : chain 0 [(0, 5), (5, 2)] 7 ∧ ¬ chain 0 [(0, 5), (4, 2)] 7 ∧ ¬ chain 0 [(0, 5), (5, 3)] 7 := by simp [chain]
+
+/-- `get_rq_uname_type` is total and exact; a parameter that is present with length 0 counts as present
+    (seed kind C14_4) -/
+theorem uname_type_exact (d : DAuth) :
+    (unameType d = unMissing ↔ d.slots kUsername = none ∧ d.slots kUsernameExt = none) ∧
+    (unameType d = unStandard ↔ (d.slots kUsername).isSome ∧ d.slots kUsernameExt = none ∧ d.userhash = false) ∧
+    (unameType d = unUserhash ↔ (d.slots kUsername).isSome ∧ d.slots kUsernameExt = none ∧ d.userhash = true) ∧
+    (unameType d = unExtended ↔ d.slots kUsername = none ∧
+      ∃ e, d.slots kUsernameExt = some e ∧ e.quoted = false ∧ d.userhash = false ∧ extPrefix.length + 1 ≤ e.raw.length) ∧
+    (unameType d = unInvalid ↔ ((d.slots kUsername).isSome ∧ (d.slots kUsernameExt).isSome) ∨
+      (d.slots kUsername = none ∧ ∃ e, d.slots kUsernameExt = some e ∧
+        ¬ (e.quoted = false ∧ d.userhash = false ∧ extPrefix.length + 1 ≤ e.raw.length))) ∧
+    (unameType d = unMissing ∨ unameType d = unStandard ∨ unameType d = unUserhash ∨ unameType d = unExtended ∨
+      unameType d = unInvalid) :=
+  unameType_exact d
+
+/-- `username=""`: present and empty is STANDARD with the empty name, not MISSING -/
+example : (parseDigest [117, 115, 101, 114, 110, 97, 109, 101, 61, 34, 34] (some 0)).map
+    (fun d => (unameType d, usernameInfo [] none d)) = .ok (unStandard, .ok (⟨unStandard, some [], none, none⟩, algoMd5)) := by decide
+
+/-! ## Several request headers: `MHD_get_rq_dauth_params_` / `MHD_get_rq_bauth_params_` -/
+
+/-- The first header (kind HEADER, name `Authorization` caseless) whose value is the scheme token followed by
+    SP / HT / nothing decides: headers before it that do not match — other names, other kinds, the other scheme,
+    `Digestx` — are passed over, headers after it are never looked at, even when the first one does not parse. -/
+theorem digest_api_first_matching_header (pre : List Hdr) (h : Hdr) (post : List Hdr) (off : Nat) (av : Bytes)
+    (hpre : ∀ x ∈ pre, hdrMatch digestBase x = none) (hm : hdrMatch digestBase h = some (off, av)) :
+    digestApiH (pre ++ h :: post) = digestApiH [h] ∧ digestLayH (pre ++ h :: post) = digestLayH [h] := by
+  simp only [digestApiH, digestLayH, dauthParams_first pre h post off av hpre hm, and_self]
+
+theorem digest_api_no_header (hs : List Hdr) (h : ∀ x ∈ hs, hdrMatch digestBase x = none) : digestApiH hs = .ok none := by
+  simp [digestApiH, dauthParams_none hs h, Res.map]
+
+theorem basic_api_first_matching_header (pre : List Hdr) (h : Hdr) (post : List Hdr) (off : Nat) (av : Bytes)
+    (hpre : ∀ x ∈ pre, hdrMatch basicBase x = none) (hm : hdrMatch basicBase h = some (off, av)) :
+    basicApiH (pre ++ h :: post) = basicInfo av :=
+  basicApiH_first pre h post off av hpre hm
+
+theorem basic_api_no_header (hs : List Hdr) (h : ∀ x ∈ hs, hdrMatch basicBase x = none) : basicApiH hs = none :=
+  basicApiH_none hs h
+
+/-- one header: the functions of `digest_api_roundtrip` / `basic_api_roundtrip` -/
+theorem api_single_header (value : Bytes) :
+    digestApiH [⟨headerKind, authHeader, value⟩] = digestApi value ∧ basicApiH [⟨headerKind, authHeader, value⟩] = basicApi value :=
+  ⟨digestApiH_single value, rfl⟩
+
+/-- `Authorization: Basic QTpC` then `Authorization: Digest nc=1;` (broken) then `Authorization: Digest nc=2`:
+    Basic credentials `A:B`; no Digest credentials (the first Digest header is the one parsed) -/
+def exHdrs : List Hdr :=
+  [⟨headerKind, authHeader, basicBase ++ [32, 81, 84, 112, 67]⟩,
+   ⟨headerKind, authHeader, digestBase ++ [32, 110, 99, 61, 49, 59]⟩,
+   ⟨headerKind, authHeader, digestBase ++ [32, 110, 99, 61, 50]⟩]
+example : basicApiH exHdrs = some ([65], some [66]) ∧ (digestApiH exHdrs).map (fun o => o.isSome) = .ok false ∧
+    (digestApiH exHdrs.reverse).map (fun o => o.isSome) = .ok true := by decide
 
 
 end Mhd.C14
